@@ -509,8 +509,8 @@ func enumerate(t *vlib.T) {
 				}
 				for _, ds := range b.defSets {
 					for incMask := 0; incMask < 4; incMask++ {
-						if ds && incMask == 0 {
-							continue
+						if ds && (incMask == 0 || pd) {
+							continue // variables defined through set: unpadded sources only (the tokenizer twin uses the render context)
 						}
 						for place := 0; place < nPlaces; place++ {
 							if ds && place == pChildBlock {
